@@ -1,7 +1,8 @@
 #!/usr/bin/env python3
 """Writes /verif/SENSITIVITY.md from sensitivity/mutants.json (tools/mutants.py) and seeded/*/meta.json."""
-import json, glob
-rows = json.load(open('/verif/sensitivity/mutants.json'))
+import json, glob, os
+V = os.path.dirname(os.path.dirname(os.path.abspath(__file__)))
+rows = json.load(open(V + '/sensitivity/mutants.json'))
 notes = {
  'm02-block-cols-clamp': 'equivalent: a negative count makes the same empty range as 0',
  'm05-zero-size-only-width': 'equivalent for C01 since the macroblock loop is bounded: a zero-height picture has no macroblock and nothing divides by the height',
@@ -18,7 +19,7 @@ out = ["# SENSITIVITY — do the checks notice when a property is broken?\n",
 "its demonstration passes on the clean tree and fails with the change) and then run against all eight checks",
 "(`tools/try_seed.sh`, quick tier).  Files: `seeded/<id>/{patch.diff,demo.rs,NOTES.md,meta.json}`.\n",
 "| id | breaks | what it needs to manifest | caught by |", "|---|---|---|---|"]
-for f in sorted(glob.glob('/verif/seeded/*/meta.json')):
+for f in sorted(glob.glob(V + '/seeded/*/meta.json')):
     m = json.load(open(f))
     out.append(f"| {m['id']} | {m['breaks_property']} | {m['needs_to_manifest']} | {', '.join(m['caught_by']) or 'NONE'}{' (after strengthening, see meta.json)' if 'history' in m else ''} |")
 out += ["", "All 24 are caught by the check of the property they target. Two were first MISSED by every check and led to",
@@ -35,5 +36,5 @@ out += ["", f"Summary: {caught} caught, {killed} already killed by the repositor
 "## 3. Silence on the pristine tree\n",
 "See `sensitivity/silence.txt`: every check, quick tier, over 100 different `VERIF_SEED` values on the unchanged tree: no VIOLATION line, exit 0 every time.",
 "`tools/determinism.sh` additionally shows that plan digests and history digests are identical across repeated executions and worker counts 1/4/16.\n"]
-open('/verif/SENSITIVITY.md','w').write("\n".join(out))
+open(V + '/SENSITIVITY.md','w').write("\n".join(out))
 print("written", caught, killed, missed)
